@@ -205,8 +205,28 @@ func top(r *vf.Run) {
 	r.Count("suspects", len(suspects))
 	// Every hang costs its whole budget, so the number of re-runs is bounded: at most 2
 	// per suspect stage and maxRerun in total; the others stay undecided (inconclusive).
-	maxRerun := envInt("C04_MAX_RERUN", r.N(6, 24))
+	maxRerun := envInt("C04_MAX_RERUN", r.N(12, 30))
 	perStage := map[string]int{}
+	{
+		// the first suspect of every stage comes first, so that the budget is spent on
+		// distinct places
+		rank := make([]int, len(suspects))
+		seenStage := map[string]int{}
+		for i, s := range suspects {
+			rank[i] = seenStage[s.stage]
+			seenStage[s.stage]++
+		}
+		idx := make([]int, len(suspects))
+		for i := range idx {
+			idx[i] = i
+		}
+		sort.SliceStable(idx, func(a, b int) bool { return rank[idx[a]] < rank[idx[b]] })
+		ordered := make([]span, len(suspects))
+		for i, j := range idx {
+			ordered[i] = suspects[j]
+		}
+		suspects = ordered
+	}
 	susWork := make(chan span, len(suspects))
 	queued := 0
 	for _, s := range suspects {
